@@ -243,6 +243,23 @@ CORPUS = [
     ("document-marker-package-file", "X: int\n", "---\n"),
     ("non-integer-vector-length", "R: !record\n  fields:\n    v: !vector {items: int, length: abc}\n", None),
     ("non-integer-enum-value", "E: !enum\n  values:\n    a: xyz\n", None),
+    # anchors and aliases in every position that holds a type: reused, and self-referential (the anchor is registered when the node opens, so a node can
+    # contain an alias of itself; yaml.v3's own decoder guards against that, a hand-written node walker must too)
+    ("yaml-alias-reuses-a-type", "R: !record\n  fields:\n    image: &img !array {items: float, dimensions: 2}\n    mask: *img\n    v: &v int*\n    w: *v\nP: !protocol\n  sequence:\n    a: &s R\n    b: *s\n", None),
+    ("yaml-self-referential-vector", "R: !record\n  fields:\n    children: &tree !vector {items: *tree}\n", None),
+    ("yaml-self-referential-union", "R: !record\n  fields:\n    value: &v [int, string, *v]\n", None),
+    ("yaml-self-referential-map-and-array", "R: !record\n  fields:\n    m: &m !map {keys: string, values: *m}\n    a: &a !array {items: *a}\n    g: &g !generic {name: Box, args: [*g]}\nBox<T>: !record\n  fields:\n    v: T\n", None),
+    ("yaml-self-referential-step-and-stream", "P: !protocol\n  sequence:\n    s: &s !stream {items: *s}\n    t: &t [null, *t]\n", None),
+    ("yaml-self-referential-definitions", "A: &a\n  - *a\nB: &b !record\n  fields: *b\nE: &e !enum\n  values: *e\nN: &n !union {x: *n}\n", None),
+    ("yaml-self-referential-merge-key", "R: &r !record\n  <<: *r\n  fields:\n    a: int\n", None),
+    ("yaml-mutual-aliases", "R: !record\n  fields:\n    a: &a [int, *b]\n    b: &b [float, *a]\n", None),
+    ("yaml-self-referential-manifest", "R: int\n", "namespace: Fz\nimports: &i [*i]\nversions: &v {v0: *v}\n"),
+    # a latest version that defines nothing (empty, comment only, aliases only) while a previous version declares a protocol / types
+    ("empty-latest-version-with-previous-protocol", {"model.yml": "# nothing yet\n", "../old/_package.yml": "namespace: Fz\n", "../old/model.yml": "P: !protocol\n  sequence:\n    a: int\n"},
+     "namespace: Fz\nversions:\n  v0: ../old\n"),
+    ("latest-version-without-the-previous-protocol", {"model.yml": "A: int\n", "../old/_package.yml": "namespace: Fz\n", "../old/model.yml": "R: !record\n  fields:\n    a: int\nP: !protocol\n  sequence:\n    a: R\nQ: !protocol\n  sequence:\n    b: R*\n"},
+     "namespace: Fz\nversions:\n  v0: ../old\n"),
+    ("empty-previous-version", {"model.yml": "P: !protocol\n  sequence:\n    a: int\n", "../old/_package.yml": "namespace: Fz\n", "../old/model.yml": "\n"}, "namespace: Fz\nversions:\n  v0: ../old\n"),
     # open finding: positions the YAML library does not report
     ("yaml-unknown-anchor", "R: !record\n  fields:\n    a: int\n    b: *nope\n", None),
     ("yaml-problem-on-first-line", "\tR: !record\n  fields:\n    a: int\n", None),
@@ -329,8 +346,9 @@ def cycle_cases(sc):
 
 def corpus_cases(sc):
     for name, model, man in CORPUS:
-        yield Case("corpus:" + name, sc.path(f"corpus-{name}/pkg"), {"model.yml": model}, man if man is not None else "namespace: Fz\n")
-        yield Case("corpus:" + name, sc.path(f"corpus-{name}-gen/pkg"), {"model.yml": model},
+        files = model if isinstance(model, dict) else {"model.yml": model}
+        yield Case("corpus:" + name, sc.path(f"corpus-{name}/pkg"), dict(files), man if man is not None else "namespace: Fz\n")
+        yield Case("corpus:" + name, sc.path(f"corpus-{name}-gen/pkg"), dict(files),
                    (man if man is not None else "namespace: Fz\n") + "python:\n  outputDir: ../out_py\ncpp:\n  sourcesOutputDir: ../out_cpp\n  generateCMakeLists: false\nmatlab:\n  outputDir: ../out_matlab\n",
                    generate=True)
 
@@ -364,7 +382,7 @@ def layered_cases(rng, sc, n):
 
 
 YAML_NODES = ["null", "~", "3", "-1", "1.5", "true", '""', '"x"', "[]", "{}", "[int]", "{a: int}", "[[[]]]", "!record", "!enum", "!flags", "!protocol", "!vector", "!array",
-              "!map", "!union", "!stream", "!generic", "!switch", "!!binary aGk=", "!!set {a, b}", "&a x", "*a", "<<: {a: int}", "? [a, b]\n    : c", "|\n      text", ">-\n      text",
+              "!map", "!union", "!stream", "!generic", "!switch", "!!binary aGk=", "!!set {a, b}", "&a x", "*a", "&zz [*zz]", "&zy !vector {items: *zy}", "&zx {k: *zx}", "&zw [int, *zw]", "<<: {a: int}", "? [a, b]\n    : c", "|\n      text", ">-\n      text",
               "!!float .inf", "!!int 0x7fffffffffffffffffff", "'it''s'", '"\\u0000"', "@bad", "`bad`", "%bad"]
 
 
